@@ -184,8 +184,8 @@ func (g *rpcRig) send(id, remote string, ws bool) (admitted bool, code int, gt *
 type keyAcct struct {
 	tokens   float64 // tokens of the address' current bucket
 	refilled bool    // the bucket was empty and time has passed since
-	since  map[string]bool
-	cached bool
+	since    map[string]bool
+	cached   bool
 }
 
 type rpcMon struct {
@@ -471,27 +471,12 @@ func runRPCPlans(t *testing.T, rep *vh.Report) {
 	}
 	for pi := range plans.Plans {
 		p := &plans.Plans[pi]
-		for i, pth := range p.Paths {
-			ok := false
-			okRun, dump := vh.WithWatchdog(120*time.Second, func() {
-				synctest.Test(t, func(t *testing.T) {
-					ok = replayRPCPath(rep, p, i, pth)
-				})
-			})
-			if !okRun {
-				rep.Inconclusivef("path %s/%d did not finish (harness stuck):\n%s", p.Name, i, dump[:min(len(dump), 3000)])
-				return
-			}
-			rep.Count("rpc_paths", 1)
-			if ok {
-				rep.Count("rpc_paths_conform", 1)
-			}
-			if i == 0 && pi < 2 {
-				rep.Sample(map[string]any{"plan": p.Name, "path": pth[:min(len(pth), 8)]})
-			}
-			if len(rep.Violations) > 0 || len(rep.Inconclusive) > 3 {
-				return
-			}
+		stop := runPaths(t, rep, "rpc", p.Name, len(p.Paths), func(i int) bool { return replayRPCPath(rep, p, i, p.Paths[i]) })
+		if len(p.Paths) > 0 && pi < 2 {
+			rep.Sample(map[string]any{"plan": p.Name, "path": p.Paths[0][:min(len(p.Paths[0]), 8)]})
+		}
+		if stop {
+			return
 		}
 	}
 	runExtractCases(rep, plans.XCases)
@@ -557,6 +542,53 @@ func runExtractCases(rep *vh.Report, cases []xCase) {
 	}
 }
 
+// runPaths replays n paths of one plan, each in its own bubble, on a few worker goroutines (paths are
+// independent: every path builds its own handler stack / server). It reports whether the driver should
+// stop (a violation, repeated drift, or a stuck harness).
+func runPaths(t *testing.T, rep *vh.Report, kind, plan string, n int, replay func(i int) bool) (stop bool) {
+	workers := vh.EnvInt("VERIF_LIMITS_WORKERS", 4)
+	var (
+		mu   sync.Mutex
+		next int
+		halt bool
+		wg   sync.WaitGroup
+	)
+	for w := 0; w < workers; w++ {
+		wg.Add(1)
+		go func() {
+			defer wg.Done()
+			for {
+				mu.Lock()
+				i := next
+				next++
+				h := halt
+				mu.Unlock()
+				if h || i >= n {
+					return
+				}
+				ok := false
+				okRun, dump := vh.WithWatchdog(180*time.Second, func() {
+					synctest.Test(t, func(t *testing.T) { ok = replay(i) })
+				})
+				rep.Count(kind+"_paths", 1)
+				if ok {
+					rep.Count(kind+"_paths_conform", 1)
+				}
+				if !okRun {
+					rep.Inconclusivef("%s path %s/%d did not finish (harness stuck):\n%s", kind, plan, i, dump[:min(len(dump), 3000)])
+				}
+				if !okRun || !ok {
+					mu.Lock()
+					halt = true
+					mu.Unlock()
+				}
+			}
+		}()
+	}
+	wg.Wait()
+	return halt
+}
+
 func TestDriver(t *testing.T) {
 	rep := vh.NewReport()
 	defer func() {
@@ -566,6 +598,11 @@ func TestDriver(t *testing.T) {
 	}()
 	if p, v := vh.Recover(func() { runRPCPlans(t, rep) }); p {
 		rep.Inconclusivef("driver panicked: %s", v)
+	}
+	if len(rep.Violations) == 0 {
+		if p, v := vh.Recover(func() { runShrexPlans(t, rep) }); p {
+			rep.Inconclusivef("driver panicked: %s", v)
+		}
 	}
 	rep.Set("done", true)
 }
